@@ -138,15 +138,38 @@ def any_script(allow_junk=True):
     return st.one_of(*alts)
 
 
+def _build_pushes(items, widths):
+    """Script of the given items (0 = OP_0, bytes = data) where the k-th data item is pushed with OP_PUSHDATA1/2/4 when
+    widths[k] is 1/2/4 (a longer form than needed: valid, and found in old transactions) and minimally otherwise."""
+    out = b''
+    k = 0
+    for it in items:
+        if it == 0:
+            out += b'\x00'
+            continue
+        w = widths[k % len(widths)] if widths else 0
+        k += 1
+        if w in (1, 2, 4) and len(it) < 256 ** w:
+            out += bytes([{1: 0x4c, 2: 0x4d, 4: 0x4e}[w]]) + len(it).to_bytes(w, 'little') + it
+        else:
+            out += wire.push_data(it)
+    return out
+
+
+def _push_widths():
+    return st.one_of(st.just([]), st.just([]), st.just([]), st.lists(st.sampled_from([0, 0, 1, 2, 4]), min_size=1,
+                                                                     max_size=4))
+
+
 def p2pkh_scriptsig():
-    return st.tuples(st.integers(0, 1000), st.sampled_from(_PUBS + [_PUBU])).map(
-        lambda t: wire.script_build([_sig(t[0]), t[1]]))
+    return st.tuples(st.integers(0, 1000), st.sampled_from(_PUBS + [_PUBU]), _push_widths()).map(
+        lambda t: _build_pushes([_sig(t[0]), t[1]], t[2]))
 
 
 def p2sh_ms_scriptsig():
-    return st.tuples(st.integers(0, 1000), st.integers(1, 3)).map(
-        lambda t: wire.script_build([0] + [_sig(t[0] + k) for k in range(t[1])] +
-                                    [raddr.script_multisig(t[1], _PUBS[:3])]))
+    return st.tuples(st.integers(0, 1000), st.integers(1, 3), _push_widths()).map(
+        lambda t: _build_pushes([0] + [_sig(t[0] + k) for k in range(t[1])] +
+                                [raddr.script_multisig(t[1], _PUBS[:3])], t[2]))
 
 
 def witness_stack():
@@ -156,7 +179,20 @@ def witness_stack():
     generic = st.lists(st.one_of(st.just(b''), one_byte_scripts(), data_item(), st.binary(min_size=32, max_size=32)),
                        min_size=1, max_size=5)
     taproot_key = st.binary(min_size=64, max_size=64).map(lambda b: [b])
-    return st.one_of(p2wpkh, p2wsh, generic, taproot_key)
+    # stacks of real-looking signatures, keys and scripts in other arrangements than the two standard ones: a witness
+    # script that is a p2pkh / p2pk script (signature, key, script), partially signed multisig (fewer signatures than the
+    # script asks for), signatures and keys in other numbers
+    p2pkh_ws = st.sampled_from(_PUBS).map(lambda k: bytes.fromhex('76a914') + hash160(k) + bytes.fromhex('88ac'))
+    sig_ = st.integers(0, 1000).map(_sig)
+    key_ = st.sampled_from(_PUBS)
+    mixed = st.one_of(
+        st.tuples(sig_, key_, p2pkh_ws).map(list),
+        st.tuples(sig_, key_, key_).map(list),
+        st.tuples(sig_, sig_, key_).map(list),
+        st.tuples(sig_, st.integers(2, 3)).map(lambda t: [b'', t[0], raddr.script_multisig(t[1], _PUBS[:3])]),
+        st.tuples(sig_, key_.map(lambda k: wire.push_data(k) + b'\xac')).map(list),
+        st.lists(st.one_of(sig_, key_, st.just(b''), p2pkh_ws), min_size=1, max_size=4))
+    return st.one_of(p2wpkh, p2wsh, generic, taproot_key, mixed)
 
 
 @st.composite
